@@ -414,7 +414,8 @@ class ConcreteCtx:
             import math
             s = 0.0
             for i, a in enumerate(args):
-                s += (0.37 + 0.11 * i) * float(a)
+                # (the constant term makes applications with a different number of arguments generically different, as in the symbolic model)
+                s += (0.37 + 0.11 * i) * float(a) + 0.19 * (i + 1)
             return [self.dtype(math.sin(1.3 * j + 0.7 + s) + 0.25 * j) for j in range(n_out)]
         idx = self.uf_counter.get(name, 0)
         self.uf_counter[name] = idx + 1
